@@ -483,6 +483,10 @@ fn verdict_cases(cw: &mut CaseWriter, seed: u64, n: usize) {
             for li in sp.0 + 2..sp.1.saturating_sub(1) {
                 targets.push(("attribute-deleted", li, sp.2.clone()));
             }
+            // … and has the first number of each of its attribute lines replaced by one that overflows f32
+            for li in sp.0 + 1..sp.1 {
+                targets.push(("number-overflows", li, sp.2.clone()));
+            }
         }
         for (what, li, ty) in targets {
             let sp = match spans.iter().find(|sp| sp.0 < li && li < sp.1) {
@@ -494,7 +498,7 @@ fn verdict_cases(cw: &mut CaseWriter, seed: u64, n: usize) {
                     continue;
                 }
                 let sp = (sp.0, sp.1, ty.clone());
-                if let Some(t2) = damage(&lines, li, "delete", text.len()) {
+                if let Some(t2) = damage(&lines, li, if what == "number-overflows" { "num-to-huge" } else { "delete" }, text.len()) {
                     let r = std::panic::catch_unwind(std::panic::AssertUnwindSafe(|| process(&ctx, "gen", &t2)));
                     let v = match r {
                         Ok(Ok(true)) => "converted",
@@ -704,7 +708,7 @@ pub fn run(args: &Args) -> i32 {
             "impl": {"class": class, "site": it.next(), "msg": it.next(), "count": n, "first_example": ex}}));
     }
     edge_cases(&mut cw, args.seed, if thorough { 4000 } else { 600 });
-    verdict_cases(&mut cw, args.seed, if thorough { 20000 } else { 4000 });
+    verdict_cases(&mut cw, args.seed, if thorough { 24000 } else { 5200 });
     cw.write(json!({"op": "noop", "label": "summary", "kind": "summary",
         "impl": {"files": fs.len(), "lines": counts.iter().sum::<usize>(), "stride": stride, "outcomes": totals, "by_edit_and_file_kind": per_kind,
                  "exhaustive": stride == 1}}));
